@@ -11,6 +11,54 @@ pub fn run() {
     let mut out = Out::open();
     for line in stdin_lines() {
         let t: Vec<&str> = line.trim().split(' ').collect();
+        if t.len() >= 8 && t[0] == "authz" {
+            // authz <ip> <port> <elevated> <none|hex json item> <hex uri> <hex user> <n> <hex group>*n <hex proc> <hex exe>
+            let ip = t[1].to_string();
+            let port: u16 = t[2].parse().unwrap();
+            let elevated = t[3] == "1";
+            let rules = if t[4] == "none" {
+                None
+            } else {
+                match serde_json::from_str::<AuthorizationItem>(&unhex_str(t[4])) {
+                    Ok(i) => Some(ComputedAuthorizationItem::from_authorization_item(i)),
+                    Err(_) => {
+                        out.line("json-error");
+                        continue;
+                    }
+                }
+            };
+            let uri: hyper::Uri = match unhex_str(t[5]).parse() {
+                Ok(u) => u,
+                Err(_) => {
+                    out.line("uri-error");
+                    continue;
+                }
+            };
+            let n: usize = t[7].parse().unwrap();
+            let claims = Claims {
+                userId: 1000,
+                userName: unhex_str(t[6]),
+                userGroups: (0..n).map(|i| unhex_str(t[8 + i])).collect(),
+                processId: 4242,
+                processName: unhex_str(t[8 + n]).into(),
+                processFullPath: unhex_str(t[9 + n]).into(),
+                processCmdLine: "cmd".to_string(),
+                runAsElevated: elevated,
+                clientIp: "127.0.0.1".to_string(),
+                clientPort: 0,
+            };
+            let mut logger = ConnectionLogger::new(0, 0);
+            let r = crate::proxy::proxy_authorizer::authorize(ip, port, &mut logger, uri, claims, rules);
+            use crate::proxy::proxy_authorizer::AuthorizeResult;
+            out.line(if r == AuthorizeResult::Ok {
+                "ok"
+            } else if r == AuthorizeResult::OkWithAudit {
+                "audit"
+            } else {
+                "forbidden"
+            });
+            continue;
+        }
         if t.len() < 4 || t[0] != "rbac" {
             out.line("bad-op");
             continue;
